@@ -290,6 +290,10 @@ class CallMixin(object):
             self.top_exits.extend(others)
 
     def call_closure(self, st, c, args, kwargs):
+        cc = self.registry.get(c.qual) if c.qual and c.qual != '<lambda>' else None
+        if cc is not None:
+            # a nested function under (assumed) contract, e.g. a helper abstracted as an uninterpreted pure function
+            return self.apply_contract(st, cc, None, args, kwargs, getattr(c.node, 'lineno', 0))
         env = self.bind(c.node, args, kwargs, st=st)
         res, others = self.run_body(st, c.node, env, c.module, c.env, c.qual)
         for x in others:
@@ -1109,6 +1113,20 @@ class CallMixin(object):
             if old is not None and self.const_str(new) == '':
                 self.assume(st, Not(z3.Contains(r, Val.s(args[0].t))) if len(old) == 1 else z3.BoolVal(True))
                 self.assume(st, z3.Length(r) <= z3.Length(x))
+            return V(mkS(r), S)
+        if name in ('strip', 'lstrip', 'rstrip') and len(args) == 1 and isinstance(args[0], V):
+            # strip family with a character set: uninterpreted function of (text, characters) with the facts that hold
+            # for every character set (the result is a piece of the text, not longer than it)
+            uf = self.get_uf('str_%s_chars' % name, StrS, StrS, StrS)
+            self.trust('str.%s(chars): uninterpreted function of (text, chars) with length / containment facts' % name)
+            r = uf(x, Val.s(args[0].t))
+            self.assume(st, z3.Length(r) <= z3.Length(x))
+            if name == 'rstrip':
+                self.assume(st, z3.PrefixOf(r, x))
+            elif name == 'lstrip':
+                self.assume(st, z3.SuffixOf(r, x))
+            else:
+                self.assume(st, z3.Contains(x, r))
             return V(mkS(r), S)
         if name in ('lower', 'upper', 'strip', 'lstrip', 'rstrip', 'capitalize', 'title'):
             if args:
